@@ -518,6 +518,154 @@ pub fn c06_clock_field_exact() {
     }
 }
 
+/// [lo, hi) = the bytes of t[..n] without leading and trailing spaces (n <= 4; written with
+/// constant trip counts so that the loops cost nothing to unwind)
+fn trim_spaces(t: &[u8], n: usize) -> (usize, usize) {
+    let mut lo = 0usize;
+    let mut in_lead = true;
+    let mut i = 0usize;
+    while i < 4 {
+        if i < n && in_lead && t[i] == b' ' {
+            lo = i + 1;
+        } else {
+            in_lead = false;
+        }
+        i += 1;
+    }
+    let mut hi = n;
+    let mut in_trail = true;
+    let mut k = 0usize;
+    while k < 4 {
+        // position n-1-k, scanning from the end
+        if k < n {
+            let p = n - 1 - k;
+            if in_trail && p >= lo && t[p] == b' ' {
+                hi = p;
+            } else {
+                in_trail = false;
+            }
+        }
+        k += 1;
+    }
+    if hi < lo {
+        hi = lo;
+    }
+    (lo, hi)
+}
+fn ep_field(tail: [u8; 2], n: usize, black_to_move: bool) {
+    // a pawn of the side that just moved on EVERY file of its double-step rank, so that every
+    // well-formed en-passant square is a valid one
+    const HEAD_B: &[u8] = b"4k3/8/8/8/PPPPPPPP/8/8/4K3 b - ";
+    const HEAD_W: &[u8] = b"4k3/8/8/pppppppp/8/8/8/4K3 w - ";
+    const TAIL: &[u8] = b" 0 1";
+    let head = if black_to_move { HEAD_B } else { HEAD_W };
+    let mut buf = [0u8; 31 + 2 + 4];
+    let mut j = 0;
+    while j < head.len() {
+        buf[j] = head[j];
+        j += 1;
+    }
+    let mut i = 0;
+    while i < n {
+        buf[head.len() + i] = tail[i];
+        i += 1;
+    }
+    let mut k = 0;
+    while k < TAIL.len() {
+        buf[head.len() + n + k] = TAIL[k];
+        k += 1;
+    }
+    let r = parse_fen(&buf[..head.len() + n + TAIL.len()]);
+    let rank = if black_to_move { b'3' } else { b'6' };
+    // reference: fields are separated by one OR MORE spaces (the parser is lenient there), so
+    // spaces around the field belong to the separators; what is left must be "-" or file + rank
+    let (lo, hi) = trim_spaces(&tail, n);
+    let dash = hi - lo == 1 && tail[lo] == b'-';
+    let square = hi - lo == 2 && tail[lo] >= b'a' && tail[lo] <= b'h' && tail[lo + 1] == rank;
+    assert!(r.is_ok() == (dash || square));
+    if let Ok(b) = r {
+        let s = to_sboard(&b);
+        assert!(s.ep == if dash { None } else { Some(tail[lo] - b'a') });
+        assert!(s.turn == black_to_move as u8);
+    }
+}
+/// the en-passant field: every 1- and 2-byte string, for either side to move, on a board where
+/// every file has a pawn that may just have double-stepped: accepted exactly for "-" and for
+/// file a..h + the capture rank of the side to move, and decoded to that file
+#[kani::proof]
+#[kani::unwind(40)]
+pub fn c06_en_passant_field_exact() {
+    let tail: [u8; 2] = kani::any();
+    ep_field(tail, 1, true);
+    ep_field(tail, 2, true);
+    ep_field(tail, 1, false);
+    ep_field(tail, 2, false);
+}
+
+fn castling_letters(tail: [u8; 4], n: usize) {
+    const HEAD: &[u8] = b"r3k2r/8/8/8/8/8/8/R3K2R w ";
+    const TAIL: &[u8] = b" - 0 1";
+    let mut buf = [0u8; 26 + 4 + 6];
+    let mut j = 0;
+    while j < HEAD.len() {
+        buf[j] = HEAD[j];
+        j += 1;
+    }
+    let mut i = 0;
+    while i < n {
+        buf[HEAD.len() + i] = tail[i];
+        i += 1;
+    }
+    let mut k = 0;
+    while k < TAIL.len() {
+        buf[HEAD.len() + n + k] = TAIL[k];
+        k += 1;
+    }
+    let r = parse_fen(&buf[..HEAD.len() + n + TAIL.len()]);
+    // reference: spaces around the field belong to the separators (lenient parser); what is left
+    // is "-" alone, or a non-empty subsequence of K Q k q in that order
+    let order = [b'K', b'Q', b'k', b'q'];
+    let mut rights = 0u8;
+    let mut pos = 0usize; // next letter of `order` that may still appear
+    let mut ok = true;
+    let (lo, hi) = trim_spaces(&tail, n);
+    let mut i = 0usize;
+    while i < 4 {
+        if i >= lo && i < hi {
+            let mut matched = false;
+            let mut o = 0usize;
+            while o < 4 {
+                if !matched && o >= pos && tail[i] == order[o] {
+                    rights |= 1 << o;
+                    pos = o + 1;
+                    matched = true;
+                }
+                o += 1;
+            }
+            ok &= matched;
+        }
+        i += 1;
+    }
+    let dash = hi - lo == 1 && tail[lo] == b'-';
+    let want = dash || (ok && hi > lo);
+    assert!(r.is_ok() == want);
+    if let Ok(b) = r {
+        // bit order of the rights set: K, Q, k, q
+        assert!(to_sboard(&b).rights == if dash { 0 } else { rights });
+    }
+}
+/// the castling field: every string of 1..=4 bytes on a board with all four rights available:
+/// accepted exactly for "-" and for the non-empty subsequences of KQkq, decoded to that set
+#[kani::proof]
+#[kani::unwind(40)]
+pub fn c06_castling_field_exact() {
+    let tail: [u8; 4] = kani::any();
+    castling_letters(tail, 1);
+    castling_letters(tail, 2);
+    castling_letters(tail, 3);
+    castling_letters(tail, 4);
+}
+
 // ------------------------------------------------------------------------------------ writer
 
 pub struct Sink {
